@@ -330,7 +330,8 @@ func randSchemaK(r *rand.Rand, keyKinds []string) PSchema {
 				}
 			}
 			if r.Intn(6) == 0 {
-				f.JSON = fmt.Sprintf("J%d", num)
+				// a JSON name is free text: characters JSON must escape, a space, non-ASCII
+				f.JSON = fmt.Sprintf([]string{"J%d", "J%d", "J\"%d", "J\\%d", "J %d", "J\u00e9%d", "J/%d"}[r.Intn(7)], num)
 			}
 			fs = append(fs, f)
 		}
